@@ -4,13 +4,4 @@ go 1.25.9
 
 require github.com/gnolang/gno v0.0.0
 
-require (
-	github.com/davecgh/go-spew v1.1.2-0.20180830191138-d8f796af33cc // indirect
-	github.com/pmezard/go-difflib v1.0.1-0.20181226105442-5d4384ee4fb2 // indirect
-	github.com/stretchr/testify v1.11.1 // indirect
-	github.com/valyala/bytebufferpool v1.0.0 // indirect
-	google.golang.org/protobuf v1.36.11 // indirect
-	gopkg.in/yaml.v3 v3.0.1 // indirect
-)
-
 replace github.com/gnolang/gno => /repo
